@@ -41,7 +41,7 @@ type c01Job struct {
 type c01Fork struct {
 	Node  string               `json:"node"`
 	Kind  string               `json:"kind"`
-	Parts []core.VerifForkPart `json:"parts,omitempty"`
+	Parts []core.VerifForkIdPart `json:"parts,omitempty"`
 }
 
 type C01RunResult struct {
